@@ -14,6 +14,8 @@ import (
 	"fmt"
 	"hash/fnv"
 	"net"
+	"errors"
+	"runtime"
 	"runtime/debug"
 	"sort"
 	"strings"
@@ -24,6 +26,13 @@ import (
 	metallbv1beta2 "go.universe.tf/metallb/api/v1beta2"
 	"go.universe.tf/metallb/internal/bgp"
 	"go.universe.tf/metallb/internal/bgp/community"
+	bgpfrr "go.universe.tf/metallb/internal/bgp/frr"
+	bgpfrrk8s "go.universe.tf/metallb/internal/bgp/frrk8s"
+	"go.universe.tf/metallb/internal/logging"
+	"go.universe.tf/metallb/internal/verifsim/bgpmodel"
+	"go.universe.tf/metallb/internal/verifsim/frrinterp"
+	"go.universe.tf/metallb/internal/verifsim/frrk8sinterp"
+	frrv1beta1 "github.com/metallb/frr-k8s/api/v1beta1"
 	"go.universe.tf/metallb/internal/config"
 	"go.universe.tf/metallb/internal/k8s"
 	"go.universe.tf/metallb/internal/k8s/controllers"
@@ -55,9 +64,11 @@ type sknobs struct {
 	bgpType              string
 	fCrash, fSuspect     bool
 	fResync, fListErr    bool
+	fSetFail             bool // transient failures of session.Set while a service is being announced
 	crashBudget          int
 	avoidKnown           bool
 	zeroEvent            bool
+	backend              string // BGP back end: "rec" (recording session manager), "frr" (real FRR session manager, rendered text interpreted), "frrk8s" (real frr-k8s session manager, FRRConfiguration interpreted)
 	nativeV6             bool // native BGP mode with IPv6 pools (configurations with BGP advertisements are then refused)
 	bgpFocus             bool // swarm: a BGP-heavy run (peers and BGP advertisements present from the start, BGP-weighted operations)
 }
@@ -82,6 +93,16 @@ type recSession struct {
 
 func (s *recSession) Close() error { s.closed = true; return nil }
 func (s *recSession) Set(advs ...*bgp.Advertisement) error {
+	if w := s.mgr.w; w != nil && w.faultsOn && w.k.fSetFail && !s.mgr.noFault && announcePath() && w.ch.Bool(1, 10, "session Set fails?") {
+		// a transient failure of the back end while a service is being announced: the handler
+		// reports an error and the reconciler retries.  The retry is scheduled at once (before any
+		// other event reaches this speaker): what MetalLB does when the service stops being
+		// eligible between a failed back-end update and its retry is outside the properties.
+		s.mgr.failedNow = true
+		w.stat("fault.bgp-session-set-failed")
+		w.logf("  FAULT session %s: Set fails (nothing applied)", s.params.SessionName)
+		return errors.New("simulated: session update failed")
+	}
 	s.ads = append([]*bgp.Advertisement(nil), advs...)
 	s.sets++
 	s.mgr.sets++
@@ -91,6 +112,33 @@ func (s *recSession) Set(advs ...*bgp.Advertisement) error {
 type recManager struct {
 	sessions []*recSession
 	sets     int
+	w        *sworld
+	// Set-failure fault: one failed in the handler call in progress / the retry must not fail again
+	failedNow, noFault bool
+}
+
+// announcePath: the call comes from bgpController.SetBalancer (announcing a service), not from a
+// withdrawal or a peer re-sync (whose errors MetalLB does not retry: ErrorNoRetry / "labels
+// unchanged").
+func announcePath() bool {
+	pcs := make([]uintptr, 40)
+	n := runtime.Callers(2, pcs)
+	frames := runtime.CallersFrames(pcs[:n])
+	set := false
+	for {
+		f, more := frames.Next()
+		switch {
+		case strings.HasSuffix(f.Function, "(*bgpController).SetBalancer"):
+			set = true
+		case strings.HasSuffix(f.Function, "(*bgpController).DeleteBalancer"), strings.HasSuffix(f.Function, "(*bgpController).syncPeers"),
+			strings.HasSuffix(f.Function, "(*bgpController).SetConfig"), strings.HasSuffix(f.Function, "(*bgpController).SetNode"):
+			return false
+		}
+		if !more {
+			break
+		}
+	}
+	return set
 }
 
 func (m *recManager) NewSession(l log.Logger, args bgp.SessionParameters) (bgp.Session, error) {
@@ -125,6 +173,11 @@ func (nopSvc) Infof(svc *v1.Service, desc, msg string, args ...interface{})  {}
 func (nopSvc) Errorf(svc *v1.Service, desc, msg string, args ...interface{}) {}
 
 type spkInc struct {
+	// real FRR back ends (knob backend): what the node's FRR / frr-k8s was last given
+	frrDrain func() (string, bool, error)
+	frrText  string
+	frrSeen  bool
+	k8sCfg   *frrv1beta1.FRRConfiguration
 	node     string
 	id       int
 	ctrl     *controller
@@ -323,7 +376,21 @@ func (w *sworld) newSpeaker(node string, fresh bool) *spkInc {
 	svcQ, cfgQ, nodeQ := simk8s.NewQueue("service"), simk8s.NewQueue("config"), simk8s.NewQueue("node")
 	inc.reload = make(chan event.GenericEvent, 1024)
 	inc.sm = &recManager{}
-	sm := inc.sm
+	if !fresh {
+		inc.sm.w = w
+	}
+	var sm bgp.SessionManager = inc.sm
+	switch w.k.backend {
+	case "frr":
+		sm, inc.frrDrain = bgpfrr.VerifNewSyncSessionManager(log.NewNopLogger())
+	case "frrk8s":
+		sm = bgpfrrk8s.NewSessionManager(log.NewNopLogger(), logging.LevelInfo, node, metallbNS)
+		sm.SetEventCallback(func(i interface{}) {
+			if cfg, ok := i.(frrv1beta1.FRRConfiguration); ok {
+				inc.k8sCfg = &cfg
+			}
+		})
+	}
 	newBGP = func(cfg controllerConfig) bgp.SessionManager { return sm }
 	layer2.VerifInterfaces = []string{"eth0", "eth1"}
 	logger := log.NewNopLogger()
@@ -347,6 +414,16 @@ func (w *sworld) newSpeaker(node string, fresh bool) *spkInc {
 			w.sched.add("h:svc:" + node + ":" + name)
 			inc.svcProcessedAt[name] = inc.firstSights
 			res := inc.listener.ServiceHandler(l, name, svc, eps)
+			if inc.sm.failedNow {
+				inc.sm.failedNow = false
+				w.logf("  [%s] SetBalancer(%s) -> %s after the failed session update; the reconciler retries", node, name, syncName(res))
+				if res != controllers.SyncStateError {
+					w.violate(firstProp(w.env), "failed-backend-update-not-reported", "", fmt.Sprintf("node %s: the BGP session refused the update for %s but the handler returned %s (no retry will happen)", node, name, syncName(res)))
+				}
+				inc.sm.noFault = true
+				res = inc.listener.ServiceHandler(l, name, svc, eps)
+				inc.sm.noFault = false
+			}
 			inc.ann.VerifDrainSpam()
 			w.logf("  [%s] SetBalancer(%s) -> %s  l2=%v bgp=%v", node, name, syncName(res), c.announced[config.Layer2][name], c.announced[config.BGP][name])
 			return res
@@ -872,6 +949,8 @@ type observation struct {
 	l2Held    map[string][]string // service -> "ip@scope" held by the announcer
 	bgpRoutes map[string][]string // peer name -> sorted distinct routes
 	bgpSvc    map[string][]string // service -> peers it is reported as advertised to
+	// real FRR back ends: structural problems the interpreter found in the generated configuration
+	backendProblems []string
 }
 
 func commString(c community.BGPCommunity) string {
@@ -887,6 +966,9 @@ func (w *sworld) observe(inc *spkInc) observation {
 		if v {
 			o.l2Decided[svc] = true
 		}
+	}
+	if w.k.backend == "frr" || w.k.backend == "frrk8s" {
+		w.observeBackend(inc, &o)
 	}
 	for _, s := range inc.sm.sessions {
 		if s.closed {
@@ -917,6 +999,69 @@ func (w *sworld) observe(inc *spkInc) observation {
 		}
 	}
 	return o
+}
+
+// observeBackend reads what the node's FRR (frr.conf text) or frr-k8s (FRRConfiguration) was last
+// given by the real session manager, interprets it, and reports per configured peer the offered
+// routes in the format of the recording back end.  In FRR semantics the communities requested for
+// one prefix by several advertisements are one attribute set; the oracle merges likewise.
+func (w *sworld) observeBackend(inc *spkInc, o *observation) {
+	var d *bgpmodel.Denotation
+	var problems []string
+	switch w.k.backend {
+	case "frr":
+		if inc.frrDrain != nil {
+			if text, ok, err := inc.frrDrain(); ok {
+				if err != nil {
+					panic("harness trouble: templateConfig failed: " + err.Error())
+				}
+				inc.frrText, inc.frrSeen = text, true
+			}
+		}
+		if !inc.frrSeen {
+			return
+		}
+		cfg, err := frrinterp.Parse(inc.frrText)
+		if err != nil {
+			panic("harness trouble: frrinterp: " + err.Error() + "\n" + inc.frrText)
+		}
+		d, problems = cfg.Denote()
+	case "frrk8s":
+		if inc.k8sCfg == nil {
+			return
+		}
+		d, problems = frrk8sinterp.Denote(inc.k8sCfg, inc.node)
+	}
+	o.backendProblems = problems
+	peerByAddr := map[string]string{}
+	for _, key := range w.srv.Keys("BGPPeer") {
+		p := w.srv.Get("BGPPeer", key).(*metallbv1beta2.BGPPeer)
+		peerByAddr[p.Spec.Address] = p.Name
+	}
+	for _, r := range d.Routers {
+		for addr, nb := range r.Neighbors {
+			name, ok := peerByAddr[addr]
+			if !ok {
+				name = "unknown-neighbor-" + addr
+			}
+			rs := []string{}
+			for prefix, off := range nb.Offers {
+				cs := append(append([]string{}, off.Comms...), prefixed("large:", off.Large)...)
+				sort.Strings(cs)
+				rs = append(rs, specspk.Route{Prefix: prefix, LocalPref: off.LocalPref, Communities: strings.Join(cs, ",")}.String())
+			}
+			sort.Strings(rs)
+			o.bgpRoutes[name] = rs
+		}
+	}
+}
+
+func prefixed(p string, l []string) []string {
+	var out []string
+	for _, x := range l {
+		out = append(out, p+x)
+	}
+	return out
 }
 
 func (o observation) String() string {
